@@ -527,7 +527,7 @@ fn depth_pool(k: K) -> Vec<Vo> {
     // operands of every word size: their bits are read through get_int::<u8>/<u64> by append/prepend,
     // so a length that ends in the lower half of a wide word, in the middle of a word, at a boundary
     pool_small(&[(K::F8x1, 0), (K::F8x1, 1), (K::F8x1, 3), (K::F8x2, 9), (k, w), (K::F128x2, w + 1), (K::D, 65), (K::A, 130), (K::F64x4, 200), (K::D, 257),
-        (K::F128x1, 10), (K::F128x2, 129 + 40), (K::F32x2, 33), (K::F16x2, 17), (K::FUx1, 7)])
+        (K::F128x1, 10)])
 }
 
 pub fn run_c03(cfg: &Cfg) -> (Part, Value, bool) {
@@ -732,7 +732,7 @@ pub fn run_c18(cfg: &Cfg) -> (Part, Value, bool) {
         let lengths: Vec<usize> = if q { vec![0, 1, 64, 127, 128, 129] } else { vec![0, 1, 63, 64, 65, 127, 128, 129] };
         roots.extend(roots_small(&mut part, &seen, k, &lengths, dyn_provs(k)));
         let nroots = roots.len();
-        let pool = pool_small(&[(K::F8x1, 0), (K::F8x1, 1), (K::F8x1, 8), (K::F64x2, 64), (K::D, 65), (K::F64x2, 128), (K::F64x4, 256), (K::D, 257), (K::F128x1, 10), (K::F128x2, 150), (K::F32x2, 40)]);
+        let pool = pool_small(&[(K::F8x1, 0), (K::F8x1, 1), (K::F8x1, 8), (K::F64x2, 64), (K::D, 65), (K::F64x2, 128), (K::F64x4, 256), (K::D, 257), (K::F128x1, 10)]);
         let mut spec = spec_edits(pool, 460, Idx::Narrow, 1);
         spec.inserts = false;
         spec.capacity = true;
